@@ -40,6 +40,7 @@ fn main() {
         "loc-replay" => xv::loc::cmd_replay(rest),
         "locfn-replay" => xv::loc::cmd_fn_replay(rest),
         "textcodec-record" => xv::textcodec::cmd_record(rest),
+        "let-replay" => xv::letrep::cmd_replay(rest),
         "clone-record" => xv::clone::cmd_record(rest),
         "total-matrix" => xv::total::cmd_matrix(rest),
         "total-pairs" => xv::total::cmd_pairs(rest),
